@@ -497,3 +497,38 @@ def co1(facts, rep, rule='CO-1'):
                                       'the value written' % (wrong[0][0], wrong[0][1][:90]))
     else:
         rep.ok(rule, key, w.loc(bb), ', '.join(want))
+
+
+# ------------------------------------------------------------------------------------------------ ZR-1 (C14, C15)
+def zr1(facts, rep, rule='ZR-1'):
+    rep.rule(rule, 'exact zero test in log space: <LogProb as Zero>::is_zero (which Viterbi\'s zero-aware maximum relies on) must '
+                   'be decided on the logarithm itself; no function reachable from it may exponentiate (exp / fastexp / the lossy '
+                   'LogProb -> Prob conversion), because exp underflows to 0 for every log-probability below about -745 (-500 for '
+                   'fastexp) and would declare possible events impossible')
+    b = facts.method('stats::probs::LogProb', 'is_zero', 'Zero')
+    key = 'LogProb::is_zero|decided-in-log-space'
+    if b is None:
+        rep.missing(rule, key, '<LogProb as Zero>::is_zero not found')
+        return
+    reach = facts.reachable_bodies([b])
+    bad = None
+    for k in sorted(reach, key=str):
+        fb = facts.bodies.get(k)
+        if fb is None:
+            continue
+        rep.analysed_body(fb)
+        for bb, t in fb.calls():
+            info = call_info(t)
+            if not info:
+                continue
+            last = info['fn'].rsplit('::', 1)[-1]
+            if last in ('exp', 'exp2', 'exp_m1', 'fastexp', 'powf', 'powi') or ('Prob' in info['fn'] and last == 'from' and
+                                                                                'LogProb' in ' '.join(info.get('args', []) or [])):
+                bad = (fb, bb, info['fn'])
+        if fb.path.endswith('fastexp') or 'From<stats::probs::LogProb>' in fb.path:
+            bad = bad or (fb, 0, fb.path)
+    if bad:
+        rep.bad(rule, key, bad[0].loc(bad[1]), 'is_zero reaches `%s`: the test is made on a rounded linear-space value, so every '
+                                               'log-probability that underflows counts as zero' % bad[2][:90])
+    else:
+        rep.ok(rule, key, '%s:%s' % (b.file, b.line), 'no exponentiation reachable (%d bodies)' % len(reach))
